@@ -468,10 +468,10 @@ pub fn all_props() -> Vec<PropDef> {
             id: "C08",
             engine: EngineKind::Seq,
             level: "exploration",
-            decisive: &["point", "snapshot", "scan", "reopen", "filter"],
+            decisive: &["point", "snapshot", "scan", "reopen", "filter", "pointer"],
             quick_runs: 4000,
             thorough_runs: 50000,
-            rule: "key-value-separated tree with drawn threshold/file size/staleness/age cutoff/compression driven by the C01+C02+C03+C04 workload and compared with the same model a standard tree satisfies. Non-trivial: a blob relocation, a blob file drop, or a filter replacement crossing the threshold happened and was read back.",
+            rule: "key-value-separated tree with drawn threshold/file size/staleness/age cutoff/compression driven by the C01+C02+C03+C04 workload and compared with the same model a standard tree satisfies; after every version change the auditor decodes every pointer of every table and demands that its blob file is part of the version. Non-trivial: a blob relocation, a blob file drop, or a filter replacement crossing the threshold happened and was read back.",
             profile: p_c08,
             nontrivial: nt_c08,
             final_reclaim: false,
@@ -481,7 +481,7 @@ pub fn all_props() -> Vec<PropDef> {
             id: "C09",
             engine: EngineKind::Seq,
             level: "exploration",
-            decisive: &["gc_stats"],
+            decisive: &["gc_stats", "pointer"],
             quick_runs: 4500,
             thorough_runs: 55000,
             rule: "after every version change of a blob-tree history the auditor recomputes per blob file garbage = blobs in file - blobs referenced by tables of this version (count, bytes, on-disk bytes) and compares with gc_stats and stale_blob_bytes; no pointer into an absent file; dead files leave within one further merge; stats equal across reopen. Non-trivial: a file with non-zero garbage was checked.",
